@@ -565,7 +565,7 @@ func (pk *Packet) DisconnectEncode(buf *bytes.Buffer) error {
 
 // DisconnectDecode decodes a Disconnect packet.
 func (pk *Packet) DisconnectDecode(buf []byte) error {
-	if pk.ProtocolVersion == 5 && pk.FixedHeader.Remaining > 1 {
+	if pk.ProtocolVersion == 5 && pk.FixedHeader.Remaining > 0 { // the reason code may be sent without a property length [MQTT-3.14.2.2.1]
 		var err error
 		var offset int
 		pk.ReasonCode, offset, err = decodeByte(buf, offset)
@@ -573,7 +573,7 @@ func (pk *Packet) DisconnectDecode(buf []byte) error {
 			return fmt.Errorf("%s: %w", err, ErrMalformedReasonCode)
 		}
 
-		if pk.FixedHeader.Remaining > 2 {
+		if pk.FixedHeader.Remaining > 1 {
 			_, err = pk.Properties.Decode(pk.FixedHeader.Type, bytes.NewBuffer(buf[offset:]))
 			if err != nil {
 				return fmt.Errorf("%s: %w", err, ErrMalformedProperties)
@@ -1142,14 +1142,20 @@ func (pk *Packet) AuthDecode(buf []byte) error {
 	var offset int
 	var err error
 
+	if pk.FixedHeader.Remaining == 0 {
+		return nil // reason code 0x00 (Success) and no properties [MQTT-3.15.2.1]
+	}
+
 	pk.ReasonCode, offset, err = decodeByte(buf, offset)
 	if err != nil {
 		return fmt.Errorf("%s: %w", err, ErrMalformedReasonCode)
 	}
 
-	_, err = pk.Properties.Decode(pk.FixedHeader.Type, bytes.NewBuffer(buf[offset:]))
-	if err != nil {
-		return fmt.Errorf("%s: %w", err, ErrMalformedProperties)
+	if pk.FixedHeader.Remaining > 1 {
+		_, err = pk.Properties.Decode(pk.FixedHeader.Type, bytes.NewBuffer(buf[offset:]))
+		if err != nil {
+			return fmt.Errorf("%s: %w", err, ErrMalformedProperties)
+		}
 	}
 
 	return nil
